@@ -20,11 +20,13 @@ fn scenario(id: &str) -> Option<&'static dyn Scenario> {
         "C06" => &scen::registry::C06,
         "C07" => &scen::gather::C07,
         "C14" => &scen::gather::C14,
+        "C15" => &scen::descs::C15,
+        "C09" => &scen::descs::C09,
         _ => return None,
     })
 }
 
-pub const ALL: &[&str] = &["C01", "C02", "C03", "C05", "C06", "C07", "C10", "C11", "C14"];
+pub const ALL: &[&str] = &["C01", "C02", "C03", "C05", "C06", "C07", "C09", "C10", "C11", "C14", "C15"];
 
 fn tier_of(s: &str) -> Tier {
     match s {
